@@ -46,14 +46,14 @@ PROFILES = {
     "ws": dict(p_noskip=0.5, p_user_ws=0.45, p_include=0.25, w_string=3, p_position=0.3, p_ws_lit=0.15),
     "position": dict(p_single_lit_string=0.3, p_insens=0.25, p_box=0.3, p_position=0.8, p_unicode=0.3, w_string=4, w_enum=3, p_memo=0.15, leftrec=0.15),
     "errors": dict(p_lookahead=0.25, p_check=0.25, w_extern=1, w_char=2, p_ccheck=0.3, p_eoi_root=0.8),
-    "include": dict(p_fields_in_string=0.5, w_string=4, p_user_ws=0.25, p_lonely_include=0.35, p_nest_include=0.6, p_name_family=0.3, p_include=0.6, p_noskip=0.4, p_position=0.3, p_memo=0.15, p_check=0.15, w_struct=8,
+    "include": dict(p_string_include=0.3, p_fields_in_string=0.5, w_string=4, p_user_ws=0.25, p_lonely_include=0.35, p_nest_include=0.6, p_name_family=0.3, p_include=0.6, p_noskip=0.4, p_position=0.3, p_memo=0.15, p_check=0.15, w_struct=8,
                     w_unit=2, w_alias=0, w_enum=1),
     "userfn": dict(p_check=0.6, p_ccheck=0.6, w_extern=4, w_char=4, user_ctx=0.4, w_string=2, w_enum=2, w_alias=2, leftrec=0.3),
     "trace": dict(p_memo=0.3, leftrec=0.3, p_check=0.3, w_extern=2, p_ccheck=0.2),
     "keywords": dict(p_keywords=0.8),
     # every feature at once: the combinations (memo x check, leftrec x position, extern x @string, ctx x include ...)
     # are where single-feature profiles are blind; one shared run of this profile is part of most quick tiers
-    "mix": dict(p_lonely_include=0.08, p_nest_include=0.15, p_shared_prefix=0.2, p_memo=0.25, leftrec=0.3, p_check=0.35, p_ccheck=0.3, w_extern=2, w_char=2, user_ctx=0.25, p_user_ws=0.2,
+    "mix": dict(p_string_include=0.06, p_lonely_include=0.08, p_nest_include=0.15, p_shared_prefix=0.2, p_memo=0.25, leftrec=0.3, p_check=0.35, p_ccheck=0.3, w_extern=2, w_char=2, user_ctx=0.25, p_user_ws=0.2,
                 p_include=0.2, p_position=0.4, p_unicode=0.3, p_lookahead=0.15, p_multitype=0.35, p_box=0.2, w_enum=2,
                 w_alias=1, p_noskip=0.35, p_keywords=0.1, p_insens=0.12, nrules=(3, 8), p_ws_lit=0.08, p_probe=0.5),
 }
@@ -127,6 +127,15 @@ class Gen:
                             g = g2
                         except Invalid:
                             pass
+                if self.coin(self.p.get("p_string_include", 0.0)):
+                    g2 = self.string_include(g)
+                    if g2 is not None:
+                        try:
+                            check_wellformed(g2)
+                            check_types(g2)
+                            g = g2
+                        except Invalid:
+                            pass
                 if self.coin(self.p.get("p_nest_include", 0.0)):
                     g2 = self.nest_includes(g)
                     if g2 is not None:
@@ -170,6 +179,34 @@ class Gen:
         alt.parts.insert(self.r.randint(0, len(alt.parts)), piece)
         g.rules.append(one)
         self.kinds["One"] = "struct"
+        return g
+
+    def string_include(self, g):
+        """a @string rule whose body declares named fields (ignored for the rule itself), pulled into a struct rule with `>`:
+        at the include site the body is an ordinary body again and its fields belong to the includer"""
+        import copy
+        g = copy.deepcopy(g)
+        hosts = [r for r in g.rules if r.kind == "rule" and not r.has("string") and self.kinds.get(r.name) == "struct"]
+        if not hosts or g.rule("Sinc") is not None:
+            return None
+        host = self.r.choice(hosts)
+        chars = [r.name for r in g.rules if r.kind == "char"] + ["char"]
+        t = self.r.choice(chars)
+        f1, f2 = self.r.sample(self.fieldpool, 2)
+        x = self.r.random()
+        if x < 0.4:
+            body = Cho([Seq([Ref(t, f1), Clo(Cho([Seq([Lit("-"), Ref(t, f2)])]))])])
+        elif x < 0.7:
+            body = Cho([Seq([Lit("<"), Ref(t, f1), Opt(Cho([Seq([Lit(":"), Ref(t, f2)])])), Lit(">")])])
+        else:
+            body = Cho([Seq([Ref(t, f1), Ref(t, f1)]), Seq([Lit("="), Ref(t, f2)])])
+        dirs = ["string"] + (["no_skip_ws"] if self.coin(0.5) else []) + (["position"] if self.coin(0.2) else [])
+        g.rules.append(Rule("Sinc", body, dirs))
+        self.kinds["Sinc"] = "string"
+        inc = Inc("Sinc")
+        piece = self.r.choice([inc, inc, Opt(Cho([Seq([inc])])), Grp(Cho([Seq([inc])])), Clo(Cho([Seq([Lit(","), inc])]))])
+        alt = self.r.choice(host.body.alts)
+        alt.parts.insert(self.r.randint(0, len(alt.parts)), piece)
         return g
 
     def nest_includes(self, g):
